@@ -554,10 +554,9 @@ func (env *ExecEnv) join(fields ...*field) *field {
 // ifs returns a separator determined by the IFS variable.
 func (env *ExecEnv) ifs() string {
 	if v, set := env.Get("IFS"); set {
-		if v.Value != "" {
-			return v.Value[:1]
-		}
-		return ""
+		// the first character
+		_, w := utf8.DecodeRuneInString(v.Value)
+		return v.Value[:w]
 	}
 	return " "
 }
